@@ -50,11 +50,27 @@ func isGraphErrorAddr(v ssa.Value) bool {
 // stageBodyTable checks C02.2.
 func stageBodyTable(c *an.Ctx, s *sched, rule string) {
 	body := s.body
-	if len(s.runnerCalls) != 1 {
-		c.Und(rule, an.Short(body)+":runner-call", body.Pos(), "expected exactly one runner call in the stage goroutine, found %d", len(s.runnerCalls))
+	if len(s.runnerCalls) == 0 {
+		c.Und(rule, an.Short(body)+":runner-call", body.Pos(), "no runner call in the stage goroutine")
 		return
 	}
-	rc := s.runnerCalls[0].(*ssa.Call)
+	// one table per runner call (a task stage and a nested-pipeline stage may be run by different calls)
+	for i, rci := range s.runnerCalls {
+		rc, ok := rci.(*ssa.Call)
+		if !ok {
+			c.Und(rule, an.Short(body)+":runner-call", rci.Pos(), "the runner is not called synchronously in the stage goroutine")
+			continue
+		}
+		suffix := ""
+		if len(s.runnerCalls) > 1 {
+			suffix = fmt.Sprintf("#%d", i+1)
+		}
+		stageBodyTableFor(c, s, rule, rc, suffix)
+	}
+}
+
+func stageBodyTableFor(c *an.Ctx, s *sched, rule string, rc *ssa.Call, suffix string) {
+	body := s.body
 	who := func(v ssa.Value) string {
 		if s.bodyStage != nil && an.SameValue(v, s.bodyStage) {
 			return "stage"
@@ -93,6 +109,11 @@ func stageBodyTable(c *an.Ctx, s *sched, rule string) {
 					if an.SameValue(sto.Val, rc) {
 						return "grapherror:=err"
 					}
+					for _, src := range an.Sources(sto.Val) {
+						if src == ssa.Value(rc) {
+							return "grapherror:=err"
+						}
+					}
 					return "grapherror:=" + an.Prov(sto.Val)
 				}
 				if call, ok := in.(*ssa.Call); ok {
@@ -107,7 +128,7 @@ func stageBodyTable(c *an.Ctx, s *sched, rule string) {
 			// start right after the runner call
 			outs := ex.RunFrom(body, rc, nil)
 			name := fmt.Sprintf("err=%s/af=%v", map[bool]string{true: "nil", false: "non-nil"}[errNil], af)
-			key := an.Short(body) + ":row " + name
+			key := an.Short(body) + ":row " + name + suffix
 			var cells []string
 			bad := ""
 			for _, o := range outs {
@@ -170,7 +191,7 @@ func stageBodyTable(c *an.Ctx, s *sched, rule string) {
 			}
 		}
 	}
-	c.Tables["stage-body("+an.Short(body)+")"] = table
+	c.Tables["stage-body("+an.Short(body)+")"+suffix] = table
 }
 
 // conditionTable checks C02.3 on the scheduling trace.
@@ -240,37 +261,48 @@ func errorReport(c *an.Ctx, s *sched, rule string) {
 	if okSched && nret > 0 {
 		c.OK(rule, an.Short(s.schedule)+":return", s.schedule.Pos(), "all %d exits return the graph's recorded error", nret)
 	}
-	// runStage returns nested Schedule's result unchanged
-	for _, ci := range an.CallsIn(s.runStage, "(*pkg/scheduler.Scheduler).Schedule") {
-		call, ok := ci.(*ssa.Call)
-		if !ok {
-			continue
-		}
-		returned := false
-		for _, r := range an.Returns(s.runStage) {
-			for _, v := range an.Sources(an.RetVal(r, 0)) {
-				if v == ssa.Value(call) {
-					returned = true
+	// what is recorded as the run's error is the result of Runner.Run / of the nested Schedule, unchanged
+	// (looked through the runner caller when it is a function of its own)
+	var recorded []ssa.Value
+	for _, rec := range findErrorRecorders(c.P) {
+		an.EachInstr(rec, func(in ssa.Instruction) {
+			if st, ok := in.(*ssa.Store); ok && isGraphErrorAddr(st.Addr) {
+				stop := func(v ssa.Value) bool {
+					call, ok := v.(*ssa.Call)
+					if !ok {
+						return false
+					}
+					if _, isRun := an.IsCallTo(call, fnRunnerRun); isRun {
+						return true
+					}
+					for _, callee := range c.P.Callees(&call.Call) {
+						if callee == s.schedule {
+							return true
+						}
+					}
+					return false
 				}
+				recorded = append(recorded, c.P.DeepSourcesStop(st.Val, 3, false, stop)...)
 			}
-		}
-		c.Check(returned, rule, an.Short(s.runStage)+":nested-result", call.Pos(), "the nested pipeline's error is returned unchanged", "the nested pipeline's error is not returned by the runner caller")
+		})
 	}
-	// and Runner.Run's result likewise
-	for _, ci := range an.CallsIn(s.runStage, fnRunnerRun) {
-		call, ok := ci.(*ssa.Call)
-		if !ok {
-			continue
-		}
-		returned := false
-		for _, r := range an.Returns(s.runStage) {
-			for _, v := range an.Sources(an.RetVal(r, 0)) {
-				if v == ssa.Value(call) {
-					returned = true
-				}
+	flows := func(call *ssa.Call) bool {
+		for _, v := range recorded {
+			if v == ssa.Value(call) {
+				return true
 			}
 		}
-		c.Check(returned, rule, an.Short(s.runStage)+":run-result", call.Pos(), "Runner.Run's error is returned unchanged", "Runner.Run's error is not returned by the runner caller")
+		return false
+	}
+	for _, ci := range an.CallsIn(s.runStage, "(*pkg/scheduler.Scheduler).Schedule") {
+		if call, ok := ci.(*ssa.Call); ok {
+			c.Check(flows(call), rule, an.Short(s.runStage)+":nested-result", call.Pos(), "the nested pipeline's error is what gets recorded, unchanged", "the nested pipeline's error is not what the stage records as the run's error")
+		}
+	}
+	for _, ci := range an.CallsIn(s.runStage, fnRunnerRun) {
+		if call, ok := ci.(*ssa.Call); ok {
+			c.Check(flows(call), rule, an.Short(s.runStage)+":run-result", call.Pos(), "Runner.Run's error is what gets recorded, unchanged", "Runner.Run's error is not what the stage records as the run's error")
+		}
 	}
 }
 
@@ -447,6 +479,7 @@ func doneTest(c *an.Ctx, s *sched, rule string) {
 		c.Und(rule, an.Short(s.launchFn)+":outer-loop", s.launchFn.Pos(), "the per-stage loop is not nested in a scheduling loop")
 		return
 	}
+	of := s.outerFn
 	var call *ssa.Call
 	br, ok := an.BranchOf(s.outer.Header)
 	if ok {
@@ -462,12 +495,12 @@ func doneTest(c *an.Ctx, s *sched, rule string) {
 		walk(br.If.Cond)
 	}
 	if call == nil {
-		c.Und(rule, an.Short(s.launchFn)+":loop-condition", s.outer.Header.Instrs[0].Pos(), "the scheduling loop's condition is not a call of a done test")
+		c.Und(rule, an.Short(of)+":loop-condition", s.outer.Header.Instrs[0].Pos(), "the scheduling loop's condition is not a call of a done test")
 		return
 	}
 	cs := c.P.Callees(&call.Call)
 	if len(cs) != 1 || cs[0].Blocks == nil {
-		c.Und(rule, an.Short(s.launchFn)+":loop-condition", call.Pos(), "done test is not a single module function")
+		c.Und(rule, an.Short(of)+":loop-condition", call.Pos(), "done test is not a single module function")
 		return
 	}
 	d := cs[0]
@@ -479,7 +512,7 @@ func doneTest(c *an.Ctx, s *sched, rule string) {
 	contOnTrue := br.True != nil && s.outer.Blocks[br.True]
 	// done==true must leave the loop
 	leaves := ok1 && ((tb && !contOnTrue) || (!tb && contOnTrue))
-	c.Check(leaves, rule, an.Short(s.launchFn)+":loop-exit", call.Pos(), "the scheduling loop ends when the done test is true and continues otherwise", "the scheduling loop does not end exactly when the done test is true")
+	c.Check(leaves, rule, an.Short(of)+":loop-exit", call.Pos(), "the scheduling loop ends when the done test is true and continues otherwise", "the scheduling loop does not end exactly when the done test is true")
 	// table of the done test over one stage
 	var loop *an.Loop
 	for _, l := range an.Loops(d) {
